@@ -6,19 +6,36 @@ ROOT=$(cd "$(dirname "$0")/.." && pwd)
 T="$1"; RUNS="${2:-20000}"; SEED="${3:-1}"; W="${4:-16}"
 [ "$SEED" = "0" ] && SEED=1
 export CARGO_NET_OFFLINE=true
+export VERIF_ROOT="$ROOT"
 cd "$ROOT" || exit 2
 cargo +nightly fuzz build --fuzz-dir fuzz "$T" >"$ROOT/fuzz/build.log" 2>&1 || { echo "fuzz build failed"; tail -20 "$ROOT/fuzz/build.log"; exit 2; }
 WORK="$ROOT/out/fuzz-$T-$$"
 rm -rf "$WORK"; mkdir -p "$WORK/corpus" "$WORK/artifacts"
-# seeds: small corpus files (libFuzzer grows length slowly from an empty corpus)
+MAXLEN=600; DICT="-dict=$ROOT/fuzz/sv.dict"
 n=0
-for f in "$ROOT"/corpus/sv/*.sv "$ROOT"/corpus/pp/* "$ROOT"/corpus/lib/*; do
-  s=$(wc -c <"$f"); if [ "$s" -le 600 ]; then cp "$f" "$WORK/corpus/seed$n"; n=$((n+1)); fi
-done
+case "$T" in
+  *tape)
+    # structured targets read a choice tape: seed with pseudo-random tapes of many lengths (derived from the seed)
+    MAXLEN=4800; DICT=""
+    python3 - "$WORK/corpus" "$SEED" <<'PYEOF'
+import sys,random
+d,seed=sys.argv[1],int(sys.argv[2])
+r=random.Random(seed)
+for i in range(96):
+    n=r.choice([40,120,400,800,1600,3200,4800])
+    open('%s/seed%d'%(d,i),'wb').write(bytes(r.getrandbits(8) for _ in range(n)))
+PYEOF
+    n=96 ;;
+  *)
+    # seeds: small corpus files (libFuzzer grows length slowly from an empty corpus)
+    for f in "$ROOT"/corpus/sv/*.sv "$ROOT"/corpus/pp/* "$ROOT"/corpus/lib/*; do
+      s=$(wc -c <"$f"); if [ "$s" -le 600 ]; then cp "$f" "$WORK/corpus/seed$n"; n=$((n+1)); fi
+    done ;;
+esac
 BIN="$ROOT/fuzz/target/x86_64-unknown-linux-gnu/release/$T"
 [ -x "$BIN" ] || { echo "fuzz binary missing: $BIN"; exit 2; }
 cd "$WORK" || exit 2
-"$BIN" "$WORK/corpus" -artifact_prefix="$WORK/artifacts/" -runs="$RUNS" -seed="$SEED" -max_len=600 -len_control=0 -dict="$ROOT/fuzz/sv.dict" \
+"$BIN" "$WORK/corpus" -artifact_prefix="$WORK/artifacts/" -runs="$RUNS" -seed="$SEED" -max_len=$MAXLEN -len_control=0 $DICT \
    -jobs="$W" -workers="$W" -rss_limit_mb=4096 -timeout=60 -print_final_stats=1 >"$WORK/driver.log" 2>&1
 RC=$?
 EXECS=$(grep -h "stat::number_of_executed_units" "$WORK"/fuzz-*.log 2>/dev/null | awk '{s+=$2} END {print s+0}')
